@@ -235,6 +235,19 @@ def b_each_value(ex: Exec, node: ast.Call) -> SV:
     return SV(None, T.RAW, aux=("each", match, "f*"))
 
 
+def b_maybe(ex: Exec, node: ast.Call) -> SV:
+    """maybe(x): frame entry for an optional object (contributes nothing when x is None)."""
+    v = ex.eval(node.args[0])
+    isref = S.is_ref(v.t)
+    rid = S.un_ref(v.t)
+
+    def match(oid, isref=isref, rid=rid):
+        return z3.And(isref, oid == rid)
+
+    kind = "c*" if any(a.kind in ("list", "dict", "set") for a in v.ty.alts()) else "*"
+    return SV(None, T.RAW, aux=("each", match, kind))
+
+
 def b_unchanged(ex: Exec, node: ast.Call) -> SV:
     """Container contents (and, with field names, object fields) equal their old value."""
     o = ex.eval(node.args[0])
@@ -471,6 +484,7 @@ _TABLE = {
     "field": b_field,
     "unchanged": b_unchanged,
     "each_value": b_each_value,
+    "maybe": b_maybe,
     "elems": b_seq,
     "seq": b_seq,
     "apply": b_apply,
